@@ -21,10 +21,11 @@ const (
 	fAll          // aggregate: copy of the list
 	fAF           // aggregate: copy of the list (conventionally the one made to fail)
 	fYA           // aggregate: yields and re-enters the library, then count
+	fRet          // aggregate: returns the very slice it was given (as user code may well do)
 	nFuncs
 )
 
-var funcNames = [nFuncs]string{"id", "tag", "ff", "yf", "cnt", "first", "all", "af", "ya"}
+var funcNames = [nFuncs]string{"id", "tag", "ff", "yf", "cnt", "first", "all", "af", "ya", "ret"}
 
 func isAggregate(f int) bool { return f >= fCnt }
 
@@ -62,6 +63,8 @@ func (r *Recorder) reset(f [nFuncs]uint64) {
 	r.Panics = [nFuncs]uint64{}
 	r.LibErr = false
 	r.Nested = 0
+	r.Self = nil
+	r.depth = 0
 	r.Panicked = 0
 	r.Bad = ""
 }
@@ -153,6 +156,16 @@ func initReFn() {
 }
 
 func reenter(r *Recorder) {
+	// every other time the user function re-enters the very function that is calling it (a
+	// recursive walk over a tree does that), one level deep
+	if r.Self != nil && r.depth == 0 && r.Nested%2 == 1 {
+		r.depth++
+		func() {
+			defer func() { recover() }()
+			r.Self(reDoc)
+		}()
+		r.depth--
+	}
 	var res []interface{}
 	var err error
 	if simrt.GetMode() == simrt.ModeSolo && reFn != nil {
@@ -232,6 +245,8 @@ func mkAggregate(f, variant int) func([]interface{}) (interface{}, error) {
 				return nil, nil
 			}
 			return vs[0], nil
+		case fRet:
+			return vs, nil
 		default:
 			out := make([]interface{}, len(vs))
 			copy(out, vs)
